@@ -2,8 +2,8 @@
 # Parts 1 (core reader) and 3 (selected hand-written helpers) + the totality search live here.
 # The lead appends part 2 (generated table layouts): props "C01/LayoutProps.v", the Layout coq_targets,
 # and a second bin — the lists below are plain lists for that purpose.
-PROPS = ["C01/Props.v", "C01/PropsH.v", "C01/PropsI.v", "C01/PropsC.v", "C01/LayoutProps.v"]
-COQ_TARGETS = ["C01/Core.vo", "C01/Tables.vo", "C01/Proofs.vo", "C01/ModelH.vo", "C01/ProofsH.vo", "C01/ProofsH2.vo", "C01/IterModel.vo", "C01/IterProofs.vo", "C01/ClosureModel.vo", "C01/ClosureProofs.vo", "C01/ClosureRule.vo", "C01/ClosureInst.vo", "C01/CsModel.vo", "C01/CsProofs.vo", "C01/Examples.vo", "C01/LayoutProofs.vo", "C01/LayoutExamples.vo"]
+PROPS = ["C01/Props.v", "C01/PropsH.v", "C01/PropsI.v", "C01/PropsC.v", "C01/PropsD.v", "C01/LayoutProps.v"]
+COQ_TARGETS = ["C01/Core.vo", "C01/Tables.vo", "C01/Proofs.vo", "C01/ModelH.vo", "C01/ProofsH.vo", "C01/ProofsH2.vo", "C01/IterModel.vo", "C01/IterProofs.vo", "C01/ClosureModel.vo", "C01/ClosureProofs.vo", "C01/ClosureRule.vo", "C01/ClosureInst.vo", "C01/CsModel.vo", "C01/CsProofs.vo", "C01/Cmap4Model.vo", "C01/Cmap4Proofs.vo", "C01/Examples.vo", "C01/LayoutProofs.vo", "C01/LayoutExamples.vo"]
 BINS = ["c01", "c01l"]
 
 SPEC = dict(
@@ -52,6 +52,7 @@ SPEC = dict(
               "round 4 (IterModel.v): read-fonts/src/tables/varc.rs VarcComponentIter::next + VarcComponent::parse (+ DeltaRunIter::end), glyf.rs ComponentIter::next and ComponentGlyphIdFlagsIter::next, name.rs CharIter::next — each an instance of the generic iter_progress theorem, tied by ops 24-27",
               "round 4 (ClosureModel.v + generated ClosureRule.v): read-fonts/src/tables/gsub/closure.rs ClosureCtx::{closure_glyphs, needs_to_do_lookup, add_todo, pop_a_todo} and Gsub::closure_glyphs_once over abstract lookup semantics; the recording rule of needs_to_do_lookup is re-extracted from the source on every run (translators/c01_closure_rule.py)",
               "round 5 (CsModel.v): read-fonts/src/tables/layout.rs DeltaFormat::{new, value_count}, generated Device::read + getters, Device::iter, iter_packed_values (the `16 / bits` division is an explicit Panic); postscript/charstring.rs Evaluator::evaluate / evaluate_operator restricted to numbers, hstem, callsubr, callgsubr, return, endchar with Index::subr_bias and the NESTING_DEPTH_LIMIT rule for both call operators — tied by ops 28/29 (the charstring cases are evaluated in a child process)",
+              "round 6 (Cmap4Model.v): read-fonts/src/tables/cmap.rs Cmap4::{code_range, lookup_glyph_id}, Cmap4Iter::{new, next} over the subtable arrays (both-end clamp of the next range), tied by op 30 on overlapping / unsorted / reversed segment families",
               "read-fonts/src/tables/postscript/dict.rs: parse_bcd (digit buffer index arithmetic, nibble decoding, f64 syntax acceptance; the Fixed value is not modelled), tied through dict::tokens",
               "read-fonts/generated/generated_postscript.rs Index1/Index2::read + getters; src/tables/postscript/index.rs read_offset, get_offset, get",
               "read-fonts/src/tables/loca.rs Loca::{read, len, get_raw}; src/array.rs VarLenArray::{get, iter}, ComputedArray::{new, get, iter}; read.rs VarSize::read_len_at; post.rs PString::read; avar.rs SegmentMaps::{read, read_len_at}; gvar.rs U16Or32"],
